@@ -519,7 +519,12 @@ class _GenerateRenderMethod:
         if has_loop:
             self.printer.writeline("loop = __M_loop = runtime.LoopStack()")
 
-        for ident in to_write:
+        # names taken from the context come first: the argument defaults of
+        # the defs declared here may use them.  (the order is also the same
+        # from one run to the next, whatever the hash seed)
+        for ident in sorted(
+            to_write, key=lambda ident: (ident in comp_idents, ident)
+        ):
             if ident in comp_idents:
                 comp = comp_idents[ident]
                 if comp.is_block:
